@@ -18,6 +18,7 @@ REMOVERS = ("pop", "pop_back", "pop_front", "remove", "retain", "drain", "swap_r
 
 # (ADT suffix, field) -> reason. An exemption suppresses one field; it is never a property-level finding.
 EXEMPT = {
+    ("kanata_keyberon::layout::Layout", "rpt_action"): "taken out and put back inside do_action while a repeat runs (event-driven, within one call); nothing counts it down",
     ("kanata_state_machine::oskbd::simulated::LogFmt", "ticks"): "feature simulated_output (simulator binaries only): tick counter of the textual output log, no effect on emitted events; the simulator never blocks",
     ("kanata_state_machine::oskbd::simulated::Outputs", "ticks"): "feature simulated_output (simulator binaries only): tick counter of the recorded output, no effect on emitted events; the simulator never blocks",
     ("kanata_state_machine::kanata::Kanata", "prev_keys"): "recomputed from layout.states on every tick",
